@@ -335,6 +335,61 @@ def rlRun (cfg : RateLimitConfig) (U : Nat) : List (Nat × REv) → RState → L
   | [], _ => []
   | e :: es, st => (rlStep cfg U e.1 e.2 st).2 :: rlRun cfg U es (rlStep cfg U e.1 e.2 st).1
 
+/-! ### `allow` cut into its critical sections
+
+`allow` = lookup under `mu.RLock` · (on a miss: `mu.Lock`, double check, insert a full bucket,
+`mu.Unlock`) · `bucket.Take` under the bucket's own lock (`skel_allow`).  A caller between two
+sections holds a *pointer* to a bucket; `cleanup` may drop that bucket from the table in between
+(it then empties and seals it — tokens, capacity, rate zero — so `Take` on it refuses).  Bucket identity is a
+generation number per address, advanced by every drop. -/
+
+/-- where a call in flight stands -/
+inductive Call
+  | missed              -- looked up, no bucket: about to enter the create section
+  | holding (gen : Nat) -- holds the bucket of that generation: about to `Take`
+deriving DecidableEq, Repr
+
+inductive XEv
+  | allow (ip : Nat) | cleanup
+  | lookup (ip : Nat) | create (ip : Nat) (i : Nat) | take (ip : Nat) (i : Nat)
+deriving Repr
+
+structure XState where
+  buckets : RState
+  gen : Nat → Nat
+  calls : Nat → List Call
+
+def XState.empty : XState := ⟨fun _ => none, fun _ => 0, fun _ => []⟩
+
+def setAt {α} (f : Nat → α) (a : Nat) (v : α) : Nat → α := fun k => if k = a then v else f k
+
+def xStep (cfg : RateLimitConfig) (U t : Nat) (e : XEv) (s : XState) : XState × Option Bool :=
+  match e with
+  | .allow a => ({ s with buckets := (rlStep cfg U t (.allow a) s.buckets).1 }, (rlStep cfg U t (.allow a) s.buckets).2)
+  | .cleanup =>
+    ({ s with buckets := (rlStep cfg U t .cleanup s.buckets).1,
+              gen := fun k => if (s.buckets k).isSome && (cleanupB cfg t (s.buckets k)).isNone then s.gen k + 1 else s.gen k }, none)
+  | .lookup a =>
+    ({ s with calls := setAt s.calls a (s.calls a ++ [if (s.buckets a).isSome then .holding (s.gen a) else .missed]) }, none)
+  | .create a i =>
+    match (s.calls a)[i]? with
+    | some .missed =>
+      ({ s with buckets := setAt s.buckets a (some ((s.buckets a).getD ⟨cfg.Burst * U, t⟩)),
+                calls := setAt s.calls a ((s.calls a).set i (.holding (s.gen a))) }, none)
+    | _ => (s, none)
+  | .take a i =>
+    match (s.calls a)[i]? with
+    | some (.holding g) =>
+      if g = s.gen a && (s.buckets a).isSome then
+        ({ s with buckets := setAt s.buckets a (some (allowB cfg U t (s.buckets a)).1),
+                  calls := setAt s.calls a ((s.calls a).eraseIdx i) }, some (allowB cfg U t (s.buckets a)).2)
+      else ({ s with calls := setAt s.calls a ((s.calls a).eraseIdx i) }, some false)
+    | _ => (s, none)
+
+def xRun (cfg : RateLimitConfig) (U : Nat) : List (Nat × XEv) → XState → List (Option Bool)
+  | [], _ => []
+  | e :: es, s => (xStep cfg U e.1 e.2 s).2 :: xRun cfg U es (xStep cfg U e.1 e.2 s).1
+
 /-! ## D. HandleHandshake: gate order and call sites -/
 
 /-- What a handshake attempt turns out to be once it is past the gates. -/
